@@ -86,7 +86,7 @@ def var_value(draw, kind, k, layer, higher):
     same = [nm for nm, kd in higher if kd == kind]
     ints = [nm for nm, kd in higher if kd == "i"]
     if kind == "s":
-        form = draw(st.sampled_from(["lit", "lit", "ref", "ref", "ref2"])) if higher else "lit"
+        form = draw(st.sampled_from(["lit", "ref", "ref", "ref", "ref2"])) if higher else "lit"
         if form == "lit":
             return tag
         a = draw(st.sampled_from(higher))[0]
